@@ -88,9 +88,13 @@ struct ElemSpec {
   double angle;        // rotation angle (rad), <0: random in [0,pi]
   bool neg_hemisphere; // represent quaternion blocks with w<0
   double lin_lo, lin_hi;  // log-uniform magnitude range of linear parts (0,0 => zeros)
-  ElemSpec() : angle(-1), neg_hemisphere(false), lin_lo(1e-3), lin_hi(10) {}
+  double norm_scale;      // rotation blocks are scaled by this (1 +- 0.9 eps = still accepted by the library)
+  ElemSpec() : angle(-1), neg_hemisphere(false), lin_lo(1e-3), lin_hi(10), norm_scale(1.0) {}
 };
 void gen_elem(const GroupVT* vt, Rng& r, const ElemSpec& sp, double* c);
+// seeded choice of the corner cases every pool should contain: tiny angles in both hemispheres, angle near pi,
+// rotation norm at the edge of the acceptance threshold (takes the renormalisation branch of compose)
+void spice_elem_spec(const GroupVT* vt, Rng& r, ElemSpec& sp);
 void gen_unit_axis(Rng& r, double* u3);
 // tangent: angular blocks get angle*axis (axis random or given), linear parts log-uniform
 struct TanSpec {
